@@ -346,6 +346,16 @@ def tpm_extra_part_of_digest(s, r):
     n = r.choice([x for x in (32, 20, 48, 28, 16, 33) if x < size])
     s.k["tpm_extra_cut" if r.random() < 0.6 else "tpm_extra_tail"] = n
 FORMAT_FAULTS["tpm"]["extradata-part-of-the-digest"] = tpm_extra_part_of_digest
+def tpm_sig_other_scheme_wrapped(s, r):
+    # attStmt.alg (and extraData) say one scheme and hash; the signature over certInfo was made with ANOTHER one and is delivered inside a TPMT_SIGNATURE structure that
+    # names it (sigAlg, hashAlg, TPM2B): what the statement declares is what is verified - a header inside `sig` does not re-negotiate it
+    s.att_kind = "RS256"
+    scheme, sigalg, hsh = r.choice([("PKCS1-SHA1", 0x0014, 0x0004), ("PSS-SHA256", 0x0016, 0x000B), ("PKCS1-SHA512", 0x0014, 0x000D), ("PKCS1-SHA384", 0x0014, 0x000C), ("PSS-SHA384", 0x0016, 0x000C)])
+    s.k["tpm_sig_scheme"] = scheme
+    wrap = r.choice(["tpmt", "tpmt", "bare"])
+    if wrap == "tpmt":
+        s.k["sig_wrap"] = lambda sig, sigalg=sigalg, hsh=hsh: struct.pack(">HH", sigalg, hsh) + struct.pack(">H", len(sig)) + sig
+FORMAT_FAULTS["tpm"]["signature-of-another-scheme-than-alg-declares"] = tpm_sig_other_scheme_wrapped
 for _n in ("rp-id-other", "up-clear-required", "uv-clear-required", "alg-not-allowed", "bs-without-be"):
     CEREMONY[_n + ":shadow-members-in-the-attestation-object"] = _shadowed(CEREMONY[_n])
 # entries that make an inner structure MALFORMED (not a well-formed response rejected for a semantic reason): C19 does not demand a
